@@ -1582,26 +1582,26 @@ _with("C04", [F_SHORTW], lambda tier, rng: [c for c in gen_shortw(tier, random.R
 
 
 STATUS = {
- "C01": "Proved for every stream (hash_ok hypothesis): both decoders, set up with the blob's root / size / block size and any well-formed non-empty query, yield a prefix of the honest items, finish only on streams that start with the honest encoding, fail exactly where the stream departs, never panic (C01_e2e_sync/fsm), and decode_ranges writes only those items' bytes (C01_e2e_decode_ranges*). Stated up to the first error; past-the-error behaviour of the fsm decoder is known finding F7. Wrong claimed sizes: C16.",
+ "C01": "Proved for every stream (hash_ok hypothesis): both decoders, set up with the blob's root / size / block size and any well-formed non-empty query, yield a prefix of the honest items, finish only on streams that start with the honest encoding, fail exactly where the stream departs, never panic (C01_e2e_sync/fsm), and decode_ranges writes only those items' bytes (C01_e2e_decode_ranges*). Stated up to the first error; past-the-error behaviour of the fsm decoder is known finding F7. Wrong claimed sizes: C16. Audit additions: every statement for every well-formed query incl. the empty one; arbitrary poll sequences after errors characterised (sound while only leaf mismatches occurred; refuted with witnesses after a parent mismatch = findings F7 / F8 and the sync foreign-parent case); targets of any length; stored pairs are the true pairs.",
  "C02": "Proved (hash_ok): on any store created by the crate both validating encoders return flat(honest) (C02_enc_is_spec_*, C05_created_store_ok), and every decoder (sync, fsm, decode_ranges) fed that encoding followed by arbitrary further bytes yields exactly the honest items, finishes, and leaves the further bytes unread (C02_roundtrip_full_*); the leaves deliver exactly the selected chunks (C02_delivers_selection); the empty query encodes / decodes to nothing.",
- "C03": "Proved unconditionally (C03_*_e2e): every creation entry point of the model returns root_hash = BLAKE3 tree hash of the data (C03_root_is_blake3_tree) and the io-backed / memory outboards hold exactly the recursive spec_outboard bytes of (blocks-1)*64 bytes. bao equality at block size 0 is carried by the harness comparison with the bao crate.",
- "C04": "Proved: both validating encoders compute the recursive specification, which depends on (data, block size, selected chunks) only (C04_function_of_selection*), the parent items are those of the block-size-0 encoding minus exactly the nodes inside fully selected subtrees of at most one group (C04_pruning, C04_keep_def, C04_honest_nodes), nothing is pruned at block size 0 (C04_bs0_is_bao_layout). Byte equality with the bao crate at block size 0 is carried by the bao correspondence family (the bao crate is not modelled).",
- "C05": "Proved (hash_ok): on ANY store contents the validating encoders (sync, fsm) write a prefix of flat(honest) and stop with the hash-mismatch error at the first plan unit whose stored bytes differ (C05_prefix*, C05_detects*), independent of everything behind it (C05_independent*); on a created store they succeed with flat(honest) (C05_created_store_ok). The item-stream encoder inherits this through C08_encode_agree (same items, same error, any store).",
- "C06": "Proved (hash_ok): the four validators compute the (touched, chain_ok, leaf_ok) recursion on ANY store contents (C06_data_exact, C06_outboard_exact); everything reported is truly stored and chained to the root (C06_reported_is_true, C06_chain_ok_true, C06_leaf_ok_true), everything valid and touched is reported (C06_valid_is_reported), intact / created stores are reported completely (C06_intact_complete, C06_created_store_complete), sync = fsm on tree nodes (C06_sync_eq_fsm_tree).",
+ "C03": "Proved unconditionally (C03_*_e2e): every creation entry point of the model returns root_hash = BLAKE3 tree hash of the data (C03_root_is_blake3_tree) and the io-backed / memory outboards hold exactly the recursive spec_outboard bytes of (blocks-1)*64 bytes. bao equality at block size 0 is carried by the harness comparison with the bao crate. Audit additions: stored pairs written out explicitly, the pre-order outboard at block size 0 equals a plain definition of bao's outboard, all entry points agree, init_from over io stores of any length (the tail of a longer stale store is kept).",
+ "C04": "Proved: both validating encoders compute the recursive specification, which depends on (data, block size, selected chunks) only (C04_function_of_selection*), the parent items are those of the block-size-0 encoding minus exactly the nodes inside fully selected subtrees of at most one group (C04_pruning, C04_keep_def, C04_honest_nodes), nothing is pruned at block size 0 (C04_bs0_is_bao_layout). Byte equality with the bao crate at block size 0 is carried by the bao correspondence family (the bao crate is not modelled). Audit additions: a plain recursive definition of bao's slice format and its equality with the honest encoding at block size 0 for all five encoders on created stores.",
+ "C05": "Proved (hash_ok): on ANY store contents the validating encoders (sync, fsm) write a prefix of flat(honest) and stop with the hash-mismatch error at the first plan unit whose stored bytes differ (C05_prefix*, C05_detects*), independent of everything behind it (C05_independent*); on a created store they succeed with flat(honest) (C05_created_store_ok). The item-stream encoder inherits this through C08_encode_agree (same items, same error, any store). Audit additions: the item stream at the same strength, Ok exactly when every plan unit is intact, the receiver's side (every prefix written is accepted item by item by a decoder with the true root).",
+ "C06": "Proved (hash_ok): the four validators compute the (touched, chain_ok, leaf_ok) recursion on ANY store contents (C06_data_exact, C06_outboard_exact); everything reported is truly stored and chained to the root (C06_reported_is_true, C06_chain_ok_true, C06_leaf_ok_true), everything valid and touched is reported (C06_valid_is_reported), intact / created stores are reported completely (C06_intact_complete, C06_created_store_complete), sync = fsm on tree nodes (C06_sync_eq_fsm_tree). Audit additions: the fsm validators on arbitrary stores without loader premises, data files shorter / longer than the blob (exact output), finding F9 (short io-backed outboard stores) with kernel-checked witnesses.",
  "C07": "Proved (hash_ok): Inv (target and store agree with the blob on the delivered set) holds initially and is preserved by every decode_ranges step, sync or fsm, on ANY stream and under any sink fault (C07_inv_step, C07_inv_history); the validator reports exactly the completely delivered groups in every reachable state (C07_validator_exact*); once the delivered set covers all chunks the state is (blob, created store) (C07_converges, C07_history_converges*).",
- "C08": "Proved: creation sync = fsm unconditionally (C08_outboard_agree); decoding sync = fsm on EVERY stream (C08_decode_agree, C08_decode_cases); validating encoders sync = fsm under load agreement, discharged for memory and pre-sized io-backed stores (C08_encode_agree, C08_load_agree_*); the non-validating encoders equal the validating ones exactly when every touched group is fully selected, refuted otherwise = known finding F6 (C08_nonvalidating_*). The item-stream traversal yields, for any data and any store, Size, then items whose bytes are exactly the sync encoder's output, then Done / the same error (C08_encode_agree, C08_mixed_frame).",
- "C09": "Proved (hash_ok): truncation at any byte / alteration of any byte of the honest stream yields exactly the items before it and NotFound / HashMismatch naming the item containing the byte (C09_e2e_*), io kinds by computation; no panic up to the first error (C16_total). Panic of the sync iterator polled after an error: known finding F8.",
+ "C08": "Proved: creation sync = fsm unconditionally (C08_outboard_agree); decoding sync = fsm on EVERY stream (C08_decode_agree, C08_decode_cases); validating encoders sync = fsm under load agreement, discharged for memory and pre-sized io-backed stores (C08_encode_agree, C08_load_agree_*); the non-validating encoders equal the validating ones exactly when every touched group is fully selected, refuted otherwise = known finding F6 (C08_nonvalidating_*). The item-stream traversal yields, for any data and any store, Size, then items whose bytes are exactly the sync encoder's output, then Done / the same error (C08_encode_agree, C08_mixed_frame). Audit additions: item stream = sync encoder item by item, decode_ranges sync = fsm on every stream, all creation entry points and loaders agree, the exact output of the non-validating encoders for every query (the honest encoding of the selection widened to whole groups), finding F9.",
+ "C09": "Proved (hash_ok): truncation at any byte / alteration of any byte of the honest stream yields exactly the items before it and NotFound / HashMismatch naming the item containing the byte (C09_e2e_*), io kinds by computation; no panic up to the first error (C16_total). Panic of the sync iterator polled after an error: known finding F8. Audit additions: exact location and io kind for both decode_ranges drivers, the decoder states after each kind of error, the fsm decoder never panics on any poll sequence, the plan iterator inside the decoders never panics.",
  "C10": "Proved: first-failure semantics over the per-operation call lists (surfaces, nothing after, prefix), classification of every call site, decode_ranges with failing sinks, read loops with a failing read. Partial by nature: the call lists are tied to the crate by the logged-call correspondence; OS / runtime behaviour around a failing call is outside the model. Audit additions: the k-th reader call failing over whole decoder runs (sync, fsm) and creation, failing data / outboard sources under every encoder, validator, copy and the item stream (result is exactly the io error, output a prefix), full sinks, truncated blobs.",
  "C11": "Proved: the three exact-read loops, both decoders and outboard creation give schedule-independent results (Interrupted excluded for tokio read_exact, with a refuting witness). Partial by nature: poll-level suspension is exhibited by the harness only. Audit additions: sync::outboard over any schedule, std / tokio write_all and positioned read_exact_at loops over scheduled environments, the sync encoder over both.",
  "C12": "Proved unboundedly: node iterators = Shape listings, pre / post offsets = positions 0..n-1 of the persisted nodes in traversal order, nothing for nodes below the block level and the half leaf, NoDup / permutation. copy / flip: correspondence family. Audit additions: copy / copy_fsm / flip lose and invent nothing (exact outcome characterisation, node-keyed sources with holes, flip after flip is the identity, created stores stay created stores); offsets stated over the model's own iterators; the size bound is sharp (refutation above 2^63).",
  "C13": "Proved: stable iff persisted and subtree inside the blob, stable slots form a prefix, stable nodes keep slot (C13) and pair (C13_keeps_pair), stable byte prefix of post-order outboards under appends (C13_prefix). Audit additions: stability for every node id (only no-wrap), exact slot listing, stored pairs of created stores kept (all kinds, sync and fsm loaders), byte prefix for the model's writers and for chains of appends.",
  "C14": "Proved: truncation preserves the selection, is idempotent and well formed; sel-equal queries have identical honest encodings and cross-decode (C14_encode_equiv, C14_cross_decode). C14_truncate_canonical as first stated is refuted with a witness and replaced by the two true variants. Audit additions: chunk plans, all four encoders (any store), both decoders and decode_ranges (every stream) and all four validators are functions of the selection; requester and provider may use different equivalent queries.",
  "C15": "Proved unboundedly: the three stack-machine plans equal the recursive plans, which satisfy every well-formedness checker (stack discipline, ordered disjoint leaves, structure, root flag, cover); the checkers are thereby a certified oracle (C15_holds_pre/post). Audit additions: every well-formedness clause stated of the three stack machines themselves for any min level, exact cover (chunk groups touched / chunks selected), granularity of leaves, the root item, ResponseIter = chunk iterator at block size 0.",
- "C16": "Proved (hash_ok): for every stream, a decoder with the true root but claimed size s' whose query selects the last claimed chunk can finish only if s' = |data| (sync and fsm); no claimed size <= 2^63 makes the model decoders panic.",
+ "C16": "Proved (hash_ok): for every stream, a decoder with the true root but claimed size s' whose query selects the last claimed chunk can finish only if s' = |data| (sync and fsm); no claimed size <= 2^63 makes the model decoders panic. Audit additions: a wrong claimed size ends in an error (not merely no success) for iterators and for both decode_ranges drivers; the all-chunks query is a size proof.",
  "C17": "Proved under the stated guards: exact membership characterisations, monotonicity, idempotence; outside the guards refuted with witnesses = known finding F5. Audit additions: covers / least / greatest / aligned characterisations, list-level idempotence, guards tight for every block size, release-build monotonicity and idempotence, the debug build panics exactly outside the guard.",
  "C18": "Proved for ids < 2^62 and shifts <= 10 (20 theorems), incl. enumeration of post-order offsets and soundness / completeness of the restricted operations. Audit additions: every clause re-proved for every id a u64 can hold (children, parent, ranges, counts, offsets, block-size conversion, restricted operations), refuted exactly at u64::MAX, explicit enumeration of subtrees.",
  "C19": "Proved: postcard round trip of every wire type in the byte-level model; refutation of the pinned snapshot's length hint (fixed, F1). Partial by nature on the JSON side (serde_json round trip + text comparison by the harness). Audit additions: decoder soundness (anything accepted re-serialises to itself, up to varint canonicity), rejection of truncations, bad tags and short sequences, the io-error text convention, JSON round trips for u64 / Parent / Leaf.",
- "C20": "Proved: tree() and hash() constant on every reachable state incl. after errors, reader position at Done / finish (C20_*).",
+ "C20": "Proved: tree() and hash() constant on every reachable state incl. after errors, reader position at Done / finish (C20_*). Audit additions: accessors over arbitrary poll sequences, reader position after any poll sequence and per kind of result. (The recycled buffer of new_with_buffer is not part of the model state; its irrelevance is carried by the correspondence runs with a non-empty buffer.)",
 }
 for _pid, _txt in STATUS.items():
     if _pid in PROPS:
